@@ -1,5 +1,5 @@
 """C05 - every keyword of every dialect is recognised in its role; foreign ones are not."""
-from . import dialect_rules as dr, matcher_rules as mr, builder_rules as br
+from . import dialect_rules as dr, matcher_rules as mr, builder_rules as br, misc_rules as ms, line_rules as lr
 
 META = {
     "level": "other",
@@ -24,3 +24,7 @@ def run(rep):
     mr.rule_sink(rep, "C05.sink", "C05.crlf", want=("fields",))
     br.rule_fields(rep, "C05.fields")
     dr.rule_shared_table(rep, "C05.shared")
+    ms.rule_parse_resets(rep, "C05.reset")
+    mr.rule_reset(rep, "C05.matcherreset", classes=(mr.MQ,))
+    lr.rule_scanner(rep, "C05.line", "C05.verbatim")
+    lr.rule_line_basics(rep, "C05.trimmed")
